@@ -198,6 +198,68 @@ pub fn run(ctx: &Ctx) -> (&'static str, &'static str) {
             }
         },
     );
+    // complete in one dimension at a time: EVERY output length / message length / tag length up to a bound (no gaps between the
+    // boundary values of the alphabet above)
+    {
+        let (nl, nm, nd) = if quick { (300usize, 150usize, 255usize) } else { (2100, 600, 255) };
+        // (axis, value): axis 0 = output length, 1 = message length, 2 = tag length; the two other coordinates take a few fixed values
+        let fixed: [[(usize, usize, usize); 3]; 3] = [
+            [(0, 0, 43), (0, 64, 255), (0, 3, 0)],      // (len ignored, msg, dst)
+            [(32, 0, 43), (129, 0, 255), (48, 0, 1)],   // (len, msg ignored, dst)
+            [(48, 0, 0), (129, 65, 0), (64, 128, 0)],   // (len, msg, dst ignored)
+        ];
+        let sizes = [nl + 1, nm + 1, nd + 1];
+        let mut cases: Vec<(usize, usize, usize)> = vec![]; // (len, msg, dst)
+        for axis in 0..3 {
+            for v in 0..sizes[axis] {
+                for f in fixed[axis].iter() {
+                    cases.push(match axis {
+                        0 => (v, f.1, f.2),
+                        1 => (f.0, v, f.2),
+                        _ => (f.0, f.1, v),
+                    });
+                }
+            }
+        }
+        // and the full (message length x tag length) grid at one output length: anything keyed on the SUM of the two lengths
+        // (one-shot buffers, padding boundaries of the first hash input) sits on a diagonal of this grid
+        let gm = if quick { 160 } else { 320 };
+        for m in 0..=gm {
+            for dlen in 0..=255 {
+                cases.push((48, m, dlen));
+            }
+        }
+        let rad = [cases.len() as u64, 4];
+        ctx.sweep(
+            "expand_message.every_length",
+            crate::infra::space(&rad),
+            |i| {
+                let d = unrank(i, &rad);
+                let c = cases[d[0]];
+                json!({"expander": format!("{:?}", EXPANDERS[d[1]]), "len_in_bytes": c.0, "msg_len": c.1, "dst_len": c.2})
+            },
+            |i| {
+                let d = unrank(i, &rad);
+                let (len, m, dlen) = cases[d[0]];
+                let h = EXPANDERS[d[1]];
+                let msg = fill(m, 0);
+                let dst = rfc_dst(dlen, 0);
+                let want = match expand(h, &msg, &dst, len) {
+                    Some(w) => w,
+                    None => return Err(Fail::new("harness: case outside the RFC limits in the every-length sweep")),
+                };
+                match guard(|| lib_expand(h, &msg, &dst, len)) {
+                    Err(m) => Err(Fail::new(format!("expand_message aborted inside the RFC limits: {}", m))),
+                    Ok(g) => {
+                        if g != want {
+                            return Err(Fail::new(format!("expand_message output differs from RFC 9380 section 5.3 ({:?})", h)));
+                        }
+                        Ok(if len == 0 { "" } else { "output" })
+                    }
+                }
+            },
+        );
+    }
     // the same through a caller-supplied hash with other sizes (16-byte output, 24-byte block): limit at 255*16 = 4080
     {
         let tl: Vec<usize> = vec![0, 1, 15, 16, 17, 31, 32, 33, 48, 255, 256, 4079, 4080, 4081, 8160];
